@@ -1669,3 +1669,110 @@ Theorem analysis_total : RING -> k1 <> k0 -> forall sf mode spins H,
 Proof. intros Hring H10. exact (analysis_total_gen K k0 k1 kadd kmul ksub kopp kzero khalf Hring H10). Qed.
 
 End Theorems.
+
+(** * Instances: the hypotheses are satisfiable *)
+Require Import ZArith QArith Qcanon.
+
+Definition Zzero (c : Z) : bool := Z.eqb c 0.
+Example Z_hyps :
+  ring_ok Z 0%Z 1%Z Z.add Z.mul Z.sub Z.opp Zzero /\
+  (forall a b : Z, (a * b = 0 -> a = 0 \/ b = 0)%Z) /\ (1 <> 0)%Z.
+Proof.
+  split; [exact Z_ring_ok|]. split; [|discriminate]. intros a b H. apply Z.mul_eq_0. exact H.
+Qed.
+
+(** exact rationals in canonical form: a field of characteristic 0 with a genuine one half *)
+Definition Qczero (c : Qc) : bool := Qc_eq_bool c (Q2Qc 0).
+Definition Qchalf : Qc := Q2Qc (1 # 2).
+Example Qc_hyps :
+  ring_ok Qc (Q2Qc 0) (Q2Qc 1) Qcplus Qcmult Qcminus Qcopp Qczero /\
+  (forall a b : Qc, Qcmult a b = Q2Qc 0 -> a = Q2Qc 0 \/ b = Q2Qc 0) /\ Q2Qc 1 <> Q2Qc 0 /\
+  Qcplus Qchalf Qchalf = Q2Qc 1.
+Proof.
+  split; [split; [exact Qcrt|]|].
+  - intros c. unfold Qczero. split; [apply Qc_eq_bool_correct|]. intros ->. unfold Qc_eq_bool.
+    destruct (Qc_eq_dec (Q2Qc 0) (Q2Qc 0)); [reflexivity|contradiction].
+  - split; [exact Qcmult_integral|]. split; [intro H; inversion H|]. apply Qc_is_canon. reflexivity.
+Qed.
+
+(** * Part F: the statements that the faithful model of the code as it is violates *)
+Open Scope Z_scope.
+
+Definition z_check_symmetry := check_symmetry Z 0 1 Z.add Z.mul Z.sub Z.opp Zzero.
+Definition z_symmetrize := symmetrize Z 0 1 Z.add Z.mul Z.sub Z.opp Zzero 0.
+Definition z_sc_compute := sc_compute Z 0 Z.add Z.sub Z.opp Zzero.
+Definition z_prepare := prepare Z Z.add Z.opp Zzero.
+Definition z_analyse := analyse Z 0 1 Z.add Z.mul Z.sub Z.opp Zzero 0.
+
+(** one Hubbard atom, U = 2, level -1 (the polynomial printed by the library for
+    `site A 1 2; addCoulombS A 2 -1`), and the candidate n_0 n_1 = - c^+_0 c^+_1 c_0 c_1 *)
+Definition H_hubbard_atom : poly Z :=
+  [([cdag 0; cann 0], -1); ([cdag 1; cann 1], -1); ([cdag 0; cdag 1; cann 0; cann 1], -2)].
+Definition Q_n0n1 : poly Z := [([cdag 0; cdag 1; cann 0; cann 1], -1)].
+
+(** [single_target], full statement over all accepted integrals of motion: REFUTED for the acceptance
+    test of the code.  n_0 n_1 is accepted; states 0 and 2 share a block, their images under c^+_0
+    (states 1 and 3) do not; prepare() of c^+_0 loses the block pair (left 1, right 0), and prepare() of
+    c_0 has its second bimap insertion refused (two right blocks with the same left block) while the
+    part map from the left is overwritten.  The repaired test rejects the candidate. *)
+Theorem single_target_refuted :
+  exists (H Q : poly Z) (c : qclass Z) (f f' : fieldop),
+    poly_in_range Z 2 H /\ poly_in_range Z 2 Q /\
+    z_check_symmetry false 2 H Q = Done true /\
+    z_symmetrize false false (SymmCustom Z [Q]) [0; 1]%nat H = Done {| sy_ops := [Q]; sy_flags := [true] |} /\
+    z_sc_compute 2 [Q] = Done c /\
+    nth 0 (sc_sbi c) 0%nat = nth 2 (sc_sbi c) 0%nat /\
+    act_mono [cdag 0] (state_of_nat 2 0) = Done (Some (false, state_of_nat 2 1)) /\
+    act_mono [cdag 0] (state_of_nat 2 2) = Done (Some (false, state_of_nat 2 3)) /\
+    nth 1 (sc_sbi c) 0%nat <> nth 3 (sc_sbi c) 0%nat /\
+    z_prepare 2 c (p_cdag Z 1 0) = Done f /\ ~ In (1, 0)%nat (fo_bimap f) /\
+    z_prepare 2 c (p_c Z 1 0) = Done f' /\ fo_parts f' = [(0, 0); (0, 1)]%nat /\ fo_bimap f' = [(0, 0)]%nat /\
+    fo_fromLeft f' = [(0, 1)]%nat /\
+    z_check_symmetry true 2 H Q = Done false.
+Proof.
+  exists H_hubbard_atom, Q_n0n1.
+  eexists. eexists. eexists.
+  split; [repeat constructor|]. split; [repeat constructor|].
+  split; [vm_compute; reflexivity|]. split; [vm_compute; reflexivity|].
+  split; [vm_compute; reflexivity|].
+  split; [vm_compute; reflexivity|]. split; [vm_compute; reflexivity|]. split; [vm_compute; reflexivity|].
+  split; [vm_compute; discriminate|].
+  split; [vm_compute; reflexivity|].
+  split; [vm_compute; intros [H|[]]; discriminate|].
+  split; [vm_compute; reflexivity|].
+  split; [vm_compute; reflexivity|]. split; [vm_compute; reflexivity|]. split; [vm_compute; reflexivity|].
+  vm_compute; reflexivity.
+Qed.
+
+(** [analysis_total] for the code as it is: REFUTED.  Two spinless sites (both indices carry spin label
+    0 = down) with a hopping term: every label is up or down, so S_z is offered, and its constructor
+    throws exWrongLabel out of Symmetrizer::compute because #up = 0 <> 2 = #down.  Likewise a lattice
+    made of a two-spin site and a spinless site. *)
+Definition H_hop01 : poly Z := [([cdag 0; cann 1], 1); ([cdag 1; cann 0], 1)].
+Theorem analysis_total_refuted :
+  exists (spins : list nat) (H : poly Z),
+    poly_in_range Z (length spins) H /\
+    z_analyse false false (SymmDefault Z) spins H = Throws 1 /\
+    z_analyse false true (SymmDefault Z) spins H = Throws 1 /\
+    z_analyse false false (SymmDefault Z) [0; 1; 0]%nat [] = Throws 1.
+Proof.
+  exists [0; 0]%nat, H_hop01. split; [repeat constructor|].
+  split; [vm_compute; reflexivity|]. split; vm_compute; reflexivity.
+Qed.
+
+(** the same lattices with the repair: the analysis completes (instances of [analysis_total]) *)
+Example analysis_total_witness_fixed :
+  (exists a, z_analyse true false (SymmDefault Z) [0; 0]%nat H_hop01 = Done a /\ length (sy_ops (an_symm a)) = 1%nat) /\
+  (exists a, z_analyse true false (SymmDefault Z) [0; 1; 0]%nat [] = Done a /\ length (sy_ops (an_symm a)) = 1%nat).
+Proof. split; eexists; (split; [vm_compute; reflexivity|reflexivity]). Qed.
+
+(** non-trivial values satisfying the hypotheses of [single_target]: N on three modes; a linear form *)
+Example uniform_example :
+  Forall (poly_in_range Z 3) [p_N Z 1 Z.add Zzero 3] /\
+  Forall (uniform_shift Z 0 1 Z.add Z.mul Z.opp 3) [p_N Z 1 Z.add Zzero 3].
+Proof.
+  split.
+  - constructor; [|constructor]. apply (p_N_in_range Z 1 Z.add Zzero).
+  - constructor; [|constructor]. apply (uniform_shift_N Z 0 1 Z.add Z.mul Z.sub Z.opp Zzero Z_ring_ok).
+Qed.
+Close Scope Z_scope.
